@@ -36,6 +36,10 @@ def cases(tier, seed):
         for i in range(0, len(shapes), per):
             out.append(dict(variant=v, shapes=shapes[i:i + per] + [(R.randrange(1, 700), R.randrange(1, 1400))], colour=R.choice([0, 0, 3, 4]),
                             npts=300 if tier == "quick" else 60000, seed=R.randrange(1 << 30), toast=(i % 3 == 0)))
+    # maps with more than 2**31 pixels (a 72000 x 36000 all-sky mosaic; disk-backed and sparse here)
+    for v in VARIANTS[:4]:
+        for i in range(1 if tier == "quick" else 6):
+            out.append(dict(variant=v, huge=[36000, 72000] if i % 2 == 0 else [R.randrange(33000, 47000), R.randrange(66000, 80000)], seed=R.randrange(1 << 30), npts=400))
     return out
 
 
@@ -113,7 +117,44 @@ def gen_inputs(R, rng, n, ny, nx, toast):
     return lon, lat
 
 
+def case_huge(spec, workdir):
+    """a map too large for 32-bit flat indices: marked cells of a sparse disk-backed map are read back at their centres"""
+    import os
+
+    from toasty import samplers
+
+    variant = spec["variant"]
+    ny, nx = spec["huge"]
+    R = random.Random(spec["seed"])
+    m = np.lib.format.open_memmap(os.path.join(workdir, "huge.npy"), mode="w+", dtype=np.uint8, shape=(ny, nx))
+    n = spec["npts"]
+    iy = np.array([R.choice([0, ny - 1, (1 << 31) // nx, (1 << 31) // nx + 1, (1 << 32) // nx if (1 << 32) // nx < ny else ny - 2, R.randrange(ny), R.randrange(ny * 2 // 3, ny)]) for _ in range(n)])
+    ix = np.array([R.choice([0, nx - 1, R.randrange(nx), R.randrange(nx)]) for _ in range(n)])
+    _, first = np.unique(iy.astype(np.int64) * nx + ix, return_index=True)
+    iy, ix = iy[np.sort(first)], ix[np.sort(first)]
+    marks = (1 + np.arange(len(iy)) % 250).astype(np.uint8)
+    m[iy, ix] = marks
+    lat = math.pi / 2 - math.pi * (iy + 0.5) / ny
+    f = (ix + 0.5) / nx
+    lon = {"plate_carree_sampler": math.pi - TWOPI * f, "plate_carree_zeroright_sampler": TWOPI - TWOPI * f,
+           "plate_carree_planet_sampler": TWOPI * f - math.pi, "plate_carree_planet_zeroleft_sampler": TWOPI * f}[variant]
+    assert (np.floor(u_of(variant, lon, nx)) == ix).all()
+    lon = lon + TWOPI * np.array([R.choice([0, 0, 1, -1, 3]) for _ in range(len(ix))])
+    got = np.asarray(getattr(samplers, variant)(m)(lon.reshape(-1, 1), lat.reshape(-1, 1))).reshape(-1)
+    bad = got != marks
+    r = dict(counters=dict(points=int(len(ix)), huge_maps=1, huge_points_beyond_2_31=int(((iy.astype(np.int64) * nx + ix) >= (1 << 31)).sum())), nontrivial=True,
+             sample=dict(spec=spec), sets=dict(shapes=[[ny, nx]]))
+    del m
+    if bad.any():
+        j = int(np.argwhere(bad)[0][0])
+        r.update(status="violation", key="wrong-cell:" + variant, detail="%s on a %dx%d map (%.2f Gpixel): %d of %d marked cells not read back at their centres; first: cell (row %d, col %d) marked %d, the sampler returned %d for (lon=%.17g, lat=%.17g)" % (
+            variant, ny, nx, ny * nx / 1e9, int(bad.sum()), len(ix), iy[j], ix[j], marks[j], got[j], lon[j], lat[j]))
+    return r
+
+
 def run_case(spec, workdir):
+    if spec.get("huge"):
+        return case_huge(spec, workdir)
     from toasty import samplers, toast
 
     variant = spec["variant"]
